@@ -7,8 +7,12 @@ import GaeaVerif.Lemmas.ShardDate
   C09 — Range and calendar rules place each key in its configured interval.
 
   Model: Model/ShardPlace.lean (shard.go, numkey.go, rule.go, after the fixes
-  "year rule rejects date strings shorter than four characters" and "date rules
-  reject a sign in the digit positions").  Reference: Spec/ShardCalendar.lean.
+  "year rule rejects date strings shorter than four characters", "date rules
+  reject a sign in the digit positions", "NumKeyRange.Contains is half-open"
+  (e83712b) and "month and day rules reject a timestamp whose year is outside
+  0000-9999" (ab7347b)).  Reference: Spec/ShardCalendar.lean.
+  No `_partial` theorem and no open finding remain; the `pinned_…_witness`
+  theorems record what the code did before the last two repairs.
   The tie to the Go code is the correspondence check `gvh run C09`.
 -/
 namespace GaeaVerif.C09
@@ -57,8 +61,7 @@ theorem ediv_of_interval (k limit : Int) (j : Nat) (hl : 0 < limit) (h1 : (j : I
   omega
 
 /-- The loop of `FindForKey` over the intervals `j … j+m-1`. -/
-theorem findRange_spec (limit : Int) (hl : 0 < limit) (m j : Nat) (k : Int)
-    (hsent : ∀ i : Nat, j ≤ i → i < j + m → ((i : Int) + 1) * limit = MaxNumKey → k < MaxNumKey) :
+theorem findRange_spec (limit : Int) (hl : 0 < limit) (m j : Nat) (k : Int) :
     findRange ((List.range' j m).map (interval limit)) (j : Int) k =
       if (j : Int) * limit ≤ k ∧ k < ((j + m : Nat) : Int) * limit then .ok (k / limit)
       else .err .keyOutOfRange := by
@@ -83,16 +86,12 @@ theorem findRange_spec (limit : Int) (hl : 0 < limit) (m j : Nat) (k : Int)
         unfold NumKeyRange.Contains interval; simp only
         by_cases h1 : (j : Int) * limit ≤ k
         · have h2 : ¬ k < ((j : Int) + 1) * limit := fun h => hc ⟨h1, h⟩
-          have h3 : ¬ (((j : Int) + 1) * limit = MaxNumKey) := by
-            intro he
-            have := hsent j (by omega) (by omega) he
-            omega
-          simp [h1, h2, h3]
+          simp [h1, h2]
         · simp [h1]
       rw [hcont]
       simp only [Bool.false_eq_true, if_false]
       have e2 : (j : Int) + 1 = ((j + 1 : Nat) : Int) := by omega
-      rw [e2, ih (j + 1) (fun i h1 h2 h3 => hsent i (by omega) (by omega) h3)]
+      rw [e2, ih (j + 1)]
       have e3 : j + 1 + m = j + (m + 1) := by omega
       rw [e3]
       by_cases hk : ((j + 1 : Nat) : Int) * limit ≤ k ∧ k < ((j + (m + 1) : Nat) : Int) * limit
@@ -112,13 +111,12 @@ theorem findRange_spec (limit : Int) (hl : 0 < limit) (m j : Nat) (k : Int)
     half-open interval `[i·limit, (i+1)·limit)` contains it, and rejected with
     `ErrKeyOutOfRange` when no interval does.
 
-    `_partial`: one point is excluded — the key 2^63-1 in a layout whose last
-    bound `n·limit` is exactly 2^63-1 (`NumKeyRange.Contains` reads `End ==
-    MaxInt64` as an open end), see `range_maxint64_end_witness`.  The full
-    statement is this one without the hypothesis `hx`. -/
-theorem range_place_partial (locations : List Nat) (limit : Int) (hl : 0 < limit)
-    (hb : (total locations : Int) * limit < 2 ^ 63) (k : Int) (hk : -2 ^ 63 ≤ k ∧ k < 2 ^ 63)
-    (hx : ¬ ((total locations : Int) * limit = 2 ^ 63 - 1 ∧ k = 2 ^ 63 - 1)) :
+    Full statement (the former `range_place_partial` excluded the key 2^63-1 in
+    a layout whose last bound is exactly 2^63-1, where `NumKeyRange.Contains`
+    read `End == MaxInt64` as an open end; repaired by e83712b, see
+    `pinned_range_maxint64_end_witness`). -/
+theorem range_place (locations : List Nat) (limit : Int) (hl : 0 < limit)
+    (hb : (total locations : Int) * limit < 2 ^ 63) (k : Int) (_hk : -2 ^ 63 ≤ k ∧ k < 2 ^ 63) :
     ∃ shards, ParseNumSharding (ints locations) limit = .ok shards ∧
       NumRangeShard.FindForKey shards (.int64 k) =
         match CalendarSpec.rangeTable (total locations) limit k with
@@ -127,15 +125,7 @@ theorem range_place_partial (locations : List Nat) (limit : Int) (hl : 0 < limit
   refine ⟨_, parseNumSharding_eq locations limit hl hb, ?_⟩
   unfold NumRangeShard.FindForKey NumValue
   simp only
-  have hsent : ∀ i : Nat, 0 ≤ i → i < 0 + total locations → ((i : Int) + 1) * limit = MaxNumKey → k < MaxNumKey := by
-    intro i _ hi he
-    have := mul_mono (i + 1) (total locations) (by omega) limit hl
-    have e : ((i + 1 : Nat) : Int) = (i : Int) + 1 := by omega
-    rw [e, he] at this
-    unfold MaxNumKey at this ⊢
-    have : (total locations : Int) * limit = 2 ^ 63 - 1 := by omega
-    omega
-  have h := findRange_spec limit hl (total locations) 0 k hsent
+  have h := findRange_spec limit hl (total locations) 0 k
   rw [List.range_eq_range']
   simp only [Int.natCast_zero, Int.zero_mul, Nat.zero_add] at h
   rw [h]
@@ -172,15 +162,25 @@ theorem range_key_carriers (shards : List (Int × Int)) (k : Int) (s : GoStr) :
       rw [this]
   · intro h; unfold NumRangeShard.FindForKey; rw [hstr, h]
 
-/-- **Witness of the excluded point** (known finding `range-maxint64-end-open-key-placed`):
+/-- `NumKeyRange.Contains` as it was before e83712b. -/
+def pinnedContains (kr : Int × Int) (i : Int) : Bool :=
+  kr.1 ≤ i && (kr.2 = MaxNumKey || i < kr.2)
+
+/-- **Regression record of the former finding `range-maxint64-end-open-key-placed`:**
     49 tables of 188232082384791343 rows end at 2^63-1; the key 2^63-1 lies
-    outside every half-open interval, yet it is placed in table 48. -/
-theorem range_maxint64_end_witness :
+    outside every half-open interval.  The pinned `Contains` accepted it for the
+    last table (48); the repaired code rejects it, as `range_place` demands. -/
+theorem pinned_range_maxint64_end_witness :
     (49 : Int) * 188232082384791343 = 2 ^ 63 - 1 ∧
     CalendarSpec.rangeTable 49 188232082384791343 (2 ^ 63 - 1) = none ∧
+    pinnedContains (interval 188232082384791343 48) (2 ^ 63 - 1) = true ∧
     (ParseNumSharding [20, 29] 188232082384791343).bind
-      (fun shards => NumRangeShard.FindForKey shards (.int64 (2 ^ 63 - 1))) = .ok 48 := by
-  refine ⟨by decide, by decide, by decide⟩
+      (fun shards => NumRangeShard.FindForKey shards (.int64 (2 ^ 63 - 1))) = .err .keyOutOfRange := by
+  refine ⟨by decide, by decide, by decide, by decide⟩
+
+/-- the hypotheses of `range_place` hold of that layout and key -/
+example : (0 : Int) < 188232082384791343 ∧ (total [20, 29] : Int) * 188232082384791343 < 2 ^ 63 ∧
+    (-2 ^ 63 : Int) ≤ 2 ^ 63 - 1 ∧ (2 ^ 63 - 1 : Int) < 2 ^ 63 := by decide
 
 /-! ## year / month / day rules: keys -/
 
@@ -312,6 +312,55 @@ theorem day_string_place (civilOf : Int → Civil) (y m d : Nat) (hy : y ≤ 999
 theorem fmtDate_eq (c : Civil) (hy : 0 ≤ c.year) : fmtDate c = dateText c.year.toNat c.month c.day := by
   unfold fmtDate dateText; rw [if_neg (by omega)]
 
+theorem fmtNat_length_gt (w n : Nat) (h : 10 ^ w ≤ n) : w < (fmtNat n).length := by
+  induction w generalizing n with
+  | zero =>
+    have := fmtNat_ne_nil n
+    cases hf : fmtNat n with
+    | nil => exact absurd hf this
+    | cons => simp
+  | succ w ih =>
+    rw [Nat.pow_succ] at h
+    have hp : 0 < 10 ^ w := Nat.pos_of_ne_zero (by simp)
+    rw [fmtNat_ge10 n (by omega)]
+    have : 10 ^ w ≤ n / 10 := by
+      rw [Nat.le_div_iff_mul_le (by omega)]; exact h
+    have := ih (n / 10) this
+    simp; omega
+
+theorem zeroPad_length_gt (w n : Nat) (h : 10 ^ w ≤ n) : w < (zeroPad w n).length := by
+  unfold zeroPad
+  have := fmtNat_length_gt w n h
+  simp; omega
+
+theorem zeroPad_length_ge' (w n : Nat) : w ≤ (zeroPad w n).length := by
+  unfold zeroPad; simp; omega
+
+theorem dateText_length (y m d : Nat) (hy : y ≤ 9999) (hm : m ≤ 99) (hd : d ≤ 99) :
+    (dateText y m d).length = 10 := by
+  have h4 := zeroPad_length 4 y (by rw [pow4]; omega) (by omega)
+  have h2 := zeroPad_length 2 m (by rw [pow2]; omega) (by omega)
+  have h2' := zeroPad_length 2 d (by rw [pow2]; omega) (by omega)
+  simp [dateText, h4, h2, h2']
+
+/-- `Format("2006-01-02")` has ten characters exactly for the years 0000-9999
+    (with two-digit month and day): the test the repaired month and day rules make. -/
+theorem fmtDate_length_eq (c : Civil) (hy : 0 ≤ c.year ∧ c.year ≤ 9999) (hm : c.month ≤ 99) (hd : c.day ≤ 99) :
+    (fmtDate c).length = 10 := by
+  rw [fmtDate_eq c hy.1]; exact dateText_length _ _ _ (by omega) hm hd
+
+theorem fmtDate_length_ne (c : Civil) (hy : c.year < 0 ∨ 9999 < c.year) : (fmtDate c).length ≠ 10 := by
+  unfold fmtDate
+  have h2 := zeroPad_length_ge' 2 c.month
+  have h2' := zeroPad_length_ge' 2 c.day
+  rcases hy with hy | hy
+  · rw [if_pos hy]
+    have h4 := zeroPad_length_ge' 4 (-c.year).toNat
+    simp; omega
+  · rw [if_neg (by omega)]
+    have h4 := zeroPad_length_gt 4 c.year.toNat (by rw [pow4]; omega)
+    simp; omega
+
 /-- **Unix timestamps (`calendar_place`, timestamps).**  Whatever the process's
     time zone (`civilOf` is `time.Unix(v,0)` read as a civil date), a timestamp
     whose civil year is 0…9999 is placed at the period number of its date. -/
@@ -326,22 +375,66 @@ theorem timestamp_place (civilOf : Int → Civil) (v : Int)
   have hyc : (((civilOf v).year.toNat : Nat) : Int) = (civilOf v).year := by omega
   obtain ⟨_, h1, h2, h3⟩ := date_fields (civilOf v).year.toNat (civilOf v).month (civilOf v).day hyn hm hd []
   simp only [List.append_nil] at h1 h2 h3
+  have hlen := fmtDate_length_eq (civilOf v) hy hm hd
   refine ⟨rfl, ?_, ?_⟩
   · show yearMonthOfUnix civilOf v = _
     unfold yearMonthOfUnix
     simp only
-    rw [fmtDate_eq _ hy.1, h1, h2]
+    rw [if_neg (fun h => h hlen), fmtDate_eq _ hy.1, h1, h2]
     simp only
     rw [(field2 _ _ _ _ (zeroPad_digits 4 _) (zeroPad_digits 2 _) (zeroPad_val 4 _) (zeroPad_val 2 _)
       (zeroPad_length 2 _ (by rw [pow2]; omega) (by omega)) hyn hm).2, hyc]
   · show yearMonthDayOfUnix civilOf v = _
     unfold yearMonthDayOfUnix
     simp only
-    rw [fmtDate_eq _ hy.1, h1, h2, h3]
+    rw [if_neg (fun h => h hlen), fmtDate_eq _ hy.1, h1, h2, h3]
     simp only
     rw [(field3 _ _ _ _ _ _ (zeroPad_digits 4 _) (zeroPad_digits 2 _) (zeroPad_digits 2 _) (zeroPad_val 4 _)
       (zeroPad_val 2 _) (zeroPad_val 2 _) (zeroPad_length 2 _ (by rw [pow2]; omega) (by omega))
       (zeroPad_length 2 _ (by rw [pow2]; omega) (by omega)) hyn hm hd).2, hyc]
+
+/-- **Timestamps outside the years 0000-9999 (`timestamp_reject`).**  Whatever
+    the time zone, a timestamp whose civil year cannot be written with four
+    digits is rejected by the month and day rules with the invalid-date error
+    (before ab7347b they sliced the longer text and could place the key in an
+    unrelated table: `pinned_timestamp_year_over_9999_witness`).  The year rule
+    does not format the date: it returns the year itself. -/
+theorem timestamp_reject (civilOf : Int → Civil) (v : Int)
+    (hy : (civilOf v).year < 0 ∨ 9999 < (civilOf v).year) :
+    DateYearShard.FindForKey civilOf (.int64 v) = .ok (civilOf v).year ∧
+    DateMonthShard.FindForKey civilOf (.int64 v) = .err .invalidDate ∧
+    DateDayShard.FindForKey civilOf (.int64 v) = .err .invalidDate := by
+  have hlen := fmtDate_length_ne (civilOf v) hy
+  refine ⟨rfl, ?_, ?_⟩
+  · show yearMonthOfUnix civilOf v = _
+    unfold yearMonthOfUnix
+    simp only
+    rw [if_pos hlen]
+  · show yearMonthDayOfUnix civilOf v = _
+    unfold yearMonthDayOfUnix
+    simp only
+    rw [if_pos hlen]
+
+/-- The two together: under the month and day rules every timestamp (with a
+    calendar month and day) is placed at the period number of its civil date or,
+    when that date has no `YYYY-MM-DD` spelling, rejected — nothing else. -/
+theorem timestamp_place_or_reject (civilOf : Int → Civil) (v : Int) (hm : (civilOf v).month ≤ 99)
+    (hd : (civilOf v).day ≤ 99) :
+    let c := civilOf v
+    DateMonthShard.FindForKey civilOf (.int64 v) =
+      (if 0 ≤ c.year ∧ c.year ≤ 9999 then .ok (c.year * 100 + c.month) else .err .invalidDate) ∧
+    DateDayShard.FindForKey civilOf (.int64 v) =
+      (if 0 ≤ c.year ∧ c.year ≤ 9999 then .ok (c.year * 10000 + c.month * 100 + c.day)
+       else .err .invalidDate) := by
+  intro c
+  by_cases hy : 0 ≤ (civilOf v).year ∧ (civilOf v).year ≤ 9999
+  · have := timestamp_place civilOf v hy hm hd
+    simp only [c, if_pos hy]; exact ⟨this.2.1, this.2.2⟩
+  · have := timestamp_reject civilOf v (by omega)
+    simp only [c, if_neg hy]; exact ⟨this.2.1, this.2.2⟩
+
+/-- `timestamp_reject` is not vacuous: in UTC 38895000000000 lies in the year 1234503 -/
+example : (civilOfUnix 0 38895000000000).year = 1234503 := by decide
 
 /-- **C09, calendar rules (`calendar_place`).**  The accepted spellings of one
     instant are placed identically, at the period number of its civil date: for
@@ -415,14 +508,18 @@ theorem date_keys_never_panic (civilOf : Int → Civil) (key : Key) :
   have hym : ∀ v, yearMonthOfUnix civilOf v ≠ .panic := by
     intro v; unfold yearMonthOfUnix; simp only
     have hl := fmtDate_length (civilOf v)
-    rw [strSlice_ok _ 0 4 ⟨by omega, by omega⟩, strSlice_ok _ 5 7 ⟨by omega, by omega⟩]
-    simp only; split <;> simp
+    split
+    · simp
+    · rw [strSlice_ok _ 0 4 ⟨by omega, by omega⟩, strSlice_ok _ 5 7 ⟨by omega, by omega⟩]
+      simp only; split <;> simp
   have hymd : ∀ v, yearMonthDayOfUnix civilOf v ≠ .panic := by
     intro v; unfold yearMonthDayOfUnix; simp only
     have hl := fmtDate_length (civilOf v)
-    rw [strSlice_ok _ 0 4 ⟨by omega, by omega⟩, strSlice_ok _ 5 7 ⟨by omega, by omega⟩,
-      strSlice_ok _ 8 10 ⟨by omega, by omega⟩]
-    simp only; split <;> simp
+    split
+    · simp
+    · rw [strSlice_ok _ 0 4 ⟨by omega, by omega⟩, strSlice_ok _ 5 7 ⟨by omega, by omega⟩,
+        strSlice_ok _ 8 10 ⟨by omega, by omega⟩]
+      simp only; split <;> simp
   cases key with
   | int v => exact ⟨by simp [DateYearShard.FindForKey], hym v, hymd v⟩
   | int64 v => exact ⟨by simp [DateYearShard.FindForKey], hym v, hymd v⟩
@@ -561,16 +658,28 @@ theorem calendar_reject (civilOf : Int → Civil) (s : GoStr) :
 example : CalendarSpec.malformedFor "date_year" (ascii "201") = true := by decide
 example : CalendarSpec.malformedFor "date_month" (ascii "+201-06-01") = true := by decide
 
-/-- **Witness of the known finding `timestamp-outside-years-0-9999-placed`:** in
-    UTC the timestamp 38895000000000 lies in June of the year 1234503, whose
-    `Format("2006-01-02")` text is "1234503-06-27"; the month rule slices
-    "1234" and "03" (digits of the year) out of it and places the key in table
-    123403, the table of March 1234. -/
-theorem timestamp_year_over_9999_witness :
+/-- The timestamp branches of `getNumYearMonth` as they were before ab7347b
+    (no test of the length of the formatted text). -/
+def pinnedYearMonthOfUnix (civilOf : Int → Civil) (v : Int) : Out Int :=
+  let dateStr := fmtDate (civilOf v)
+  match strSlice dateStr 0 4, strSlice dateStr 5 7 with
+  | .ok a, .ok b => match parseInt64 (a ++ b) with
+    | some n => .ok n
+    | none => .err .invalidDate
+  | _, _ => .panic
+
+/-- **Regression record of the former finding `timestamp-outside-years-0-9999-placed`:**
+    in UTC the timestamp 38895000000000 lies in June of the year 1234503, whose
+    `Format("2006-01-02")` text is "1234503-06-27"; the pinned month rule sliced
+    "1234" and "03" (digits of the year) out of it and placed the key in table
+    123403, the table of March 1234.  The repaired rule rejects it. -/
+theorem pinned_timestamp_year_over_9999_witness :
     (civilOfUnix 0 38895000000000).year = 1234503 ∧
     CalendarSpec.dateTimeOfUnix 0 38895000000000 = none ∧
-    DateMonthShard.FindForKey (civilOfUnix 0) (.int64 38895000000000) = .ok 123403 := by
-  refine ⟨by decide, by decide, by decide⟩
+    pinnedYearMonthOfUnix (civilOfUnix 0) 38895000000000 = .ok 123403 ∧
+    DateMonthShard.FindForKey (civilOfUnix 0) (.int64 38895000000000) = .err .invalidDate ∧
+    DateDayShard.FindForKey (civilOfUnix 0) (.int64 38895000000000) = .err .invalidDate := by
+  refine ⟨by decide, by decide, by decide, by decide, by decide⟩
 
 /-! ## date_range parsers -/
 
